@@ -625,6 +625,9 @@ impl Conv<&IfStatement> for ir::StatementBlock {
 
         let mut false_side = vec![];
         let mut else_if_break = false;
+        // A later branch runs only if every earlier condition was false, so
+        // those conditions gate its writes too.
+        let mut chain = vec![comptime.clone()];
 
         for x in &value.if_statement_list {
             let (comptime, cond) = eval_expr(context, None, &x.expression, false)?;
@@ -641,10 +644,9 @@ impl Conv<&IfStatement> for ir::StatementBlock {
                 continue;
             }
 
+            chain.push(comptime.clone());
             let true_side: IrResult<ir::StatementBlock> = context
-                .with_condition_domain(comptime.clone(), |c| {
-                    Conv::conv(c, x.statement_block.as_ref())
-                });
+                .with_condition_domains(&chain, |c| Conv::conv(c, x.statement_block.as_ref()));
             let true_side = true_side?.0;
 
             // Emitting the always-true `if` instead would leave it with an empty
@@ -668,9 +670,7 @@ impl Conv<&IfStatement> for ir::StatementBlock {
             && !else_if_break
         {
             let block: IrResult<ir::StatementBlock> = context
-                .with_condition_domain(comptime.clone(), |c| {
-                    Conv::conv(c, x.statement_block.as_ref())
-                });
+                .with_condition_domains(&chain, |c| Conv::conv(c, x.statement_block.as_ref()));
 
             append_leaf_false(&mut false_side, block?.0);
         }
@@ -707,6 +707,7 @@ impl Conv<&IfResetStatement> for ir::StatementBlock {
 
         let mut false_side = vec![];
         let mut else_if_break = false;
+        let mut chain = vec![];
 
         for x in &value.if_reset_statement_list {
             let (comptime, cond) = eval_expr(context, None, &x.expression, false)?;
@@ -723,8 +724,10 @@ impl Conv<&IfResetStatement> for ir::StatementBlock {
                 continue;
             }
 
-            let true_side: ir::StatementBlock = Conv::conv(context, x.statement_block.as_ref())?;
-            let true_side = true_side.0;
+            chain.push(comptime.clone());
+            let true_side: IrResult<ir::StatementBlock> = context
+                .with_condition_domains(&chain, |c| Conv::conv(c, x.statement_block.as_ref()));
+            let true_side = true_side?.0;
 
             // The uncovered-branch check that motivates this in `if` is comb-only;
             // here it just keeps a dead always-true node out of the IR.
@@ -746,9 +749,10 @@ impl Conv<&IfResetStatement> for ir::StatementBlock {
         if let Some(x) = &value.if_reset_statement_opt
             && !else_if_break
         {
-            let block: ir::StatementBlock = Conv::conv(context, x.statement_block.as_ref())?;
+            let block: IrResult<ir::StatementBlock> = context
+                .with_condition_domains(&chain, |c| Conv::conv(c, x.statement_block.as_ref()));
 
-            append_leaf_false(&mut false_side, block.0);
+            append_leaf_false(&mut false_side, block?.0);
         }
 
         let statement = ir::Statement::IfReset(ir::IfResetStatement {
@@ -1027,6 +1031,20 @@ impl Conv<&CaseStatement> for ir::StatementBlock {
     }
 }
 
+fn switch_item_body(
+    context: &mut Context,
+    item: &SwitchStatementList,
+) -> IrResult<ir::StatementBlock> {
+    match item.switch_item.switch_item_group0.as_ref() {
+        // A bare statement arm has no StatementBlockItem wrapper, so
+        // it needs its own hoist sink here.
+        SwitchItemGroup0::Statement(x) => {
+            with_tb_hoist_sink(context, |c| Conv::conv(c, x.statement.as_ref()))
+        }
+        SwitchItemGroup0::StatementBlock(x) => Conv::conv(context, x.statement_block.as_ref()),
+    }
+}
+
 // `switch` arms carry arbitrary boolean conditions with no shared
 // selector, so they stay as a nested if-else chain — only `case` is
 // lifted to `Statement::Case`.
@@ -1044,64 +1062,58 @@ impl Conv<&SwitchStatement> for ir::StatementBlock {
         // it is listed first).
         let mut arms: Vec<(ir::Expression, Vec<ir::Statement>, TokenRange)> = Vec::new();
         let mut default: Vec<ir::Statement> = Vec::new();
+        // An arm runs only if every arm listed before it was false, and
+        // `default` only if all of them were: those conditions gate its writes
+        // too. `default` is therefore converted last, under all of them.
+        let mut chain = vec![];
+        let mut default_item = None;
+        let mut always_taken = false;
 
         for item in &value.switch_statement_list {
             let cond = match item.switch_item.switch_item_group.as_ref() {
                 SwitchItemGroup::SwitchCondition(x) => {
                     let mut cond = switch_condition(context, x.switch_condition.as_ref())?;
                     cond.eval_comptime(context, None);
-                    Some(cond)
+                    cond
                 }
-                SwitchItemGroup::Defaul(_) => None,
+                SwitchItemGroup::Defaul(_) => {
+                    // Parser enforces at most one default.
+                    if default_item.is_none() {
+                        default_item = Some(item);
+                    }
+                    continue;
+                }
             };
 
             // A dead arm's out-of-range select must not reach the range check or the
             // simulator, and an always-taken arm must not leave the chain with an
             // empty false side that reads as an uncovered branch.
-            let (true_side_only, false_side_only) = match &cond {
-                Some(cond) => eval_cond_true_false(context, cond),
-                None => (false, false),
-            };
+            let (true_side_only, false_side_only) = eval_cond_true_false(context, &cond);
 
             if false_side_only {
                 continue;
             }
 
-            let convert = |c: &mut Context| -> IrResult<ir::StatementBlock> {
-                match item.switch_item.switch_item_group0.as_ref() {
-                    // A bare statement arm has no StatementBlockItem wrapper, so
-                    // it needs its own hoist sink here.
-                    SwitchItemGroup0::Statement(x) => {
-                        with_tb_hoist_sink(c, |c| Conv::conv(c, x.statement.as_ref()))
-                    }
-                    SwitchItemGroup0::StatementBlock(x) => {
-                        Conv::conv(c, x.statement_block.as_ref())
-                    }
-                }
-            };
-            let true_side = if let Some(cond) = &cond {
-                context.with_condition_domain(cond.comptime().clone(), convert)?
-            } else {
-                convert(context)?
-            };
+            chain.push(cond.comptime().clone());
+            let true_side =
+                context.with_condition_domains(&chain, |c| switch_item_body(c, item))?;
 
-            match cond {
-                Some(cond) => {
-                    // Nothing after this arm can run, including `default` - which is
-                    // the fallback no matter where it was listed.
-                    if true_side_only {
-                        default = true_side.0;
-                        break;
-                    }
-                    arms.push((cond, true_side.0, item.switch_item.as_ref().into()));
-                }
-                None => {
-                    // Parser enforces at most one default.
-                    if default.is_empty() {
-                        default = true_side.0;
-                    }
-                }
+            // Nothing after this arm can run, including `default` - which is
+            // the fallback no matter where it was listed.
+            if true_side_only {
+                default = true_side.0;
+                always_taken = true;
+                break;
             }
+            arms.push((cond, true_side.0, item.switch_item.as_ref().into()));
+        }
+
+        if let Some(item) = default_item
+            && !always_taken
+        {
+            default = context
+                .with_condition_domains(&chain, |c| switch_item_body(c, item))?
+                .0;
         }
 
         let mut tail: Vec<ir::Statement> = default;
